@@ -109,6 +109,35 @@ def random_tables(ctx, b):
             core.report(ctx, "lookup on random table rejected at line %d: %s" % (line, json.dumps(ex[line - 1])[:300]), {"kind": "trace", "trace": ex, "line": line, "cfg": cfg})
 
 
+def giant_keys(ctx, b):
+    """keys of 64 KiB and more (lengths that do not fit 16 bits): as the table's last key (the last block's index key is the
+    un-shortened last key) and as neighbours across a block boundary sharing 66000 bytes (the separator cannot be shortened)"""
+    rng = ctx.rng
+    vg = gen.VGen(880000)
+    P = bytes([0x67]) * 66000
+    keys = [b"a", b"b", P + b"\x01", P + b"\x02", b"h", b"i", bytes([0x7a]) * 70000]
+    entries = [(k, vg.val(rng.choice([10, 300]))) for k in keys]
+    for comp in (["none"] if ctx.quick() else ["none", "zlib"]):
+        wd = ctx.sub("giant_" + comp)
+        path, wrecs, s = TC.write_real_file(ctx, b, wd, "g", gen.writer_cfg(comp=comp, bs=1024, ri=2), entries)
+        lines = ["scratch " + wd, "r_init 0 %s 1 0" % path]
+        qs = [("get", keys[2], b""), ("get", keys[3], b""), ("get", keys[6], b""), ("get", keys[6][:-1], b""), ("prefix", P, b""), ("prefix", keys[6][:65536], b""),
+              ("range", keys[2], keys[3]), ("range", keys[3], keys[6]), ("range", P, keys[4]), ("get", b"h", b""), ("range", b"b", P + b"\x01")]
+        for bd in qs:
+            lines += [gen.open_line(1, "r:0", bd), "it_drain 1", "it_destroy 1"]
+        lines += ["it_iter 1 r:0", "it_seek 1 %s" % shapes.hexs(keys[3]), "it_next 1 2", "it_seek 1 %s" % shapes.hexs(keys[6]), "it_next 1 2", "it_destroy 1", "r_destroy 0"]
+        evs, rc, err = core.run_drv(b, "\n".join(lines) + "\n", wd, "q")
+        ctx.add("queries", len(qs))
+        if rc != 0:
+            core.report(ctx, "driver ended abnormally (rc=%s) on the table with keys of 64 KiB and more: %s" % (rc, err[-1500:]), {"kind": "script", "stderr": err[-3000:]})
+            continue
+        recs = wrecs + [e for e in core.convert_events(evs) if e["e"] != "Reset"]
+        for ex, line in core.validate_batch(ctx, recs, "giant_" + comp):
+            e = ex[line - 1]
+            core.report(ctx, "lookup on the table with keys of 64 KiB and more rejected at line %d: %s" % (line, json.dumps({k: (v if not isinstance(v, list) or len(v) < 40 else "%d bytes" % len(v)) for k, v in e.items()})[:300]),
+                        {"kind": "trace", "trace": [], "line": line, "note": "trace omitted (keys of 64 KiB)"})
+
+
 def run(ctx):
     b = build.build("asan")
     vg = gen.VGen()
@@ -117,6 +146,7 @@ def run(ctx):
     for (name, cfg, entries) in pick:
         run_shape(ctx, b, name, cfg, entries)
     random_tables(ctx, b)
+    giant_keys(ctx, b)
     cov = {"states": ctx.cov.get("states", 0), "transitions": ctx.cov.get("transitions", 0),
            "traces_validated_against_impl": ctx.cov.get("traces_validated_against_impl", 0),
            "evaluations": ctx.cov.get("queries", 0), "distinct_nontrivial": ctx.cov.get("nonempty_lookups", 0), "exhaustive": False}
